@@ -201,19 +201,129 @@ Proof.
   destruct k; try (apply Main; exact H). destruct cs; [inversion H; subst; congruence | apply Main; exact H].
 Qed.
 
-(* ---------- C12: the flatten flag never outlives a PyTree check; after an accepting check the label is clear ---------- *)
+(* ---------- C12: the flatten mode and the '?'-leaf position never outlive the check that set them ---------- *)
+Definition Inv (P : pstore -> Prop) (f : ptree -> pstore -> verdict * pstore) : Prop :=
+  forall x s vd s', f x s = (vd, s') -> P s -> P s'.
+
+Section Keep.
+Variable P : pstore -> Prop.
+Hypothesis P_set_top : forall s f, P s -> P (set_top s f).
+Hypothesis P_body : forall l sopt, Inv P (flat_fn st l) -> Inv P (check_fn st l) -> Inv P (pytree_body st l sopt).
+
+Lemma P_arr a v s vd s' : arr_check st a v s = (vd, s') -> P s -> P s'.
+Proof.
+  unfold arr_check. destruct (top_frame s) as [m t]. destruct (ps_stack s) eqn:E.
+  - destruct (instancecheck (ps_flat s) (ps_path s) st a v []). intros H; inversion H; subst. auto.
+  - destruct (instancecheck (ps_flat s) (ps_path s) st a v [m]) as [vd0 s0]. intros H; inversion H; subst. auto.
+Qed.
+
+Lemma flatten_inv isleaf : Inv P isleaf -> forall x s r s' e, flatten_with isleaf x s = (r, s', e) -> P s -> P s'.
+Proof.
+  intros HF. induction x as [a|k cs IH] using tree_ind'; intros s r s' e H Hp; rewrite flatten_with_eq in H.
+  - destruct (isleaf (Leaf a) s) as [vd s1] eqn:E. pose proof (HF _ _ _ _ E Hp) as B. destruct vd; inversion H; subst; exact B.
+  - destruct (isleaf (Node k cs) s) as [vd s1] eqn:E. pose proof (HF _ _ _ _ E Hp) as B.
+    destruct vd; try (inversion H; subst; exact B).
+    destruct (flatten_list isleaf cs s1) as [[r0 s2] e0] eqn:Eg.
+    assert (B2 : P s2).
+    { clear H E. revert s1 r0 s2 e0 Eg B. induction IH as [|c rs Hc Hrs IHrs]; intros s1 r0 s2 e0 Eg B; cbn [flatten_list] in Eg.
+      - inversion Eg; subst. exact B.
+      - destruct (flatten_with isleaf c s1) as [[rc sc] ec] eqn:Ec. pose proof (Hc _ _ _ _ Ec B) as Bc.
+        destruct rc as [[lv d]|].
+        + destruct (flatten_list isleaf rs sc) as [[rr sr] er] eqn:Er. pose proof (IHrs _ _ _ _ Er Bc) as Br.
+          destruct rr as [[lvs ds]|]; inversion Eg; subst; exact Br.
+        + inversion Eg; subst. exact Bc. }
+    destruct r0 as [[lvs ds]|]; inversion H; subst; exact B2.
+Qed.
+
+Theorem leafmatch_inv : forall l, Inv P (leafmatch st l).
+Proof.
+  induction l as [| | |ls IH|ls IH|a| |l sopt IH] using leafty_ind'; intros x s vd s' H Hp.
+  - cbn in H. inversion H; subst; exact Hp.
+  - cbn in H. inversion H; subst; exact Hp.
+  - cbn in H. inversion H; subst; exact Hp.
+  - rewrite leafmatch_tuple in H.
+    assert (G : forall cs s vd s', tuple_match st ls cs s = (vd, s') -> P s -> P s').
+    { clear x s vd s' H Hp. induction IH as [|l1 lr Hl Hlr IHlr]; intros cs s vd s' H Hp; cbn [tuple_match] in H.
+      - destruct cs; inversion H; subst; exact Hp.
+      - destruct cs as [|c cr]; [inversion H; subst; exact Hp|].
+        destruct (leafmatch st l1 c s) as [v1 s1] eqn:E. pose proof (Hl _ _ _ _ E Hp) as B.
+        destruct v1; try (inversion H; subst; exact B). eapply IHlr; eauto. }
+    destruct x as [a|k cs]; [inversion H; subst; exact Hp|].
+    destruct k; try (inversion H; subst; exact Hp); eapply G; eauto.
+  - rewrite leafmatch_union in H.
+    revert s vd s' H Hp. induction IH as [|l1 lr Hl Hlr IHlr]; intros s vd s' H Hp; cbn [union_match] in H.
+    + inversion H; subst; exact Hp.
+    + destruct (leafmatch st l1 x s) as [v1 s1] eqn:E. pose proof (Hl _ _ _ _ E Hp) as B.
+      destruct v1; try (inversion H; subst; exact B). eapply IHlr; eauto.
+  - cbn [leafmatch] in H. destruct x as [[]|]; eapply P_arr; eauto.
+  - cbn in H. inversion H; subst; exact Hp.
+  - rewrite leafmatch_pytree in H.
+    assert (Fflat : Inv P (flat_fn st l)) by (unfold flat_fn; destruct l; try exact IH; intros ? ? ? ? E Hq; inversion E; subst; exact Hq).
+    assert (Fcheck : Inv P (check_fn st l)) by (unfold check_fn; destruct l; try exact IH; intros ? ? ? ? E Hq; inversion E; subst; exact Hq).
+    pose proof (P_body l sopt Fflat Fcheck) as FB.
+    destruct x as [a|k cs]; [eapply FB; [exact H | exact Hp]|].
+    destruct k; try (eapply FB; [exact H | exact Hp]). destruct cs; [inversion H; subst; exact Hp | eapply FB; [exact H | exact Hp]].
+Qed.
+End Keep.
+
 Lemma set_top_flat s f : ps_flat (set_top s f) = ps_flat s.
 Proof. unfold set_top. destruct (ps_stack s); reflexivity. Qed.
 Lemma set_top_path s f : ps_path (set_top s f) = ps_path s.
 Proof. unfold set_top. destruct (ps_stack s); reflexivity. Qed.
 
-Theorem pytree_body_clears_flatten_flag l sopt x s : ps_flat (snd (pytree_body st l sopt x s)) = false.
+Definition flat_off (s : pstore) : Prop := ps_flat s = false.
+Definition path_clear (s : pstore) : Prop := ps_path s = None.
+
+Lemma leaf_loop_flat ischeck sopt : Inv flat_off ischeck ->
+  forall lv i s vd s', leaf_loop ischeck sopt lv i s = (vd, s') -> flat_off s -> flat_off s'.
 Proof.
-  unfold pytree_body. cbv zeta.
+  intros HF. induction lv as [|leaf r IH]; intros i s vd s' H Hp; cbn [leaf_loop] in H.
+  - inversion H; subst; exact Hp.
+  - destruct sopt as [str|].
+    + destruct (ps_path s); [inversion H; subst; exact Hp|]. cbv zeta in H.
+      destruct (ischeck leaf (with_path s (Some (label_of i str)))) as [v0 s0] eqn:E0.
+      assert (B0 : flat_off s0) by (eapply HF; [exact E0 | exact Hp]).
+      destruct v0; try (inversion H; subst; exact B0). eapply IH; [exact H | exact B0].
+    + assert (H' : match ischeck leaf s with (Acc, s'') => leaf_loop ischeck None r (S i) (with_path s'' None) | (vd, s'') => (vd, s'') end = (vd, s'))
+        by (destruct (ps_path s); exact H).
+      destruct (ischeck leaf s) as [v0 s0] eqn:E0. pose proof (HF _ _ _ _ E0 Hp) as B0.
+      destruct v0; try (inversion H'; subst; exact B0). eapply IH; [exact H' | exact B0].
+Qed.
+
+Lemma body_flat l sopt : Inv flat_off (flat_fn st l) -> Inv flat_off (check_fn st l) -> Inv flat_off (pytree_body st l sopt).
+Proof.
+  intros _ Fcheck x s vd s' H _. unfold pytree_body in H. cbv zeta in H. unfold flat_off.
   destruct (flatten_with (flat_fn st l) x (with_flat s true)) as [[fl s1] e].
-  destruct fl as [[leaves sx]|]; [|cbn; now rewrite set_top_flat].
+  destruct fl as [[leaves sx]|]; [|inversion H; subst; now rewrite set_top_flat].
   destruct (top_frame (with_flat s1 false)) as [m tm].
-  destruct (match sopt with None => StOk tm | Some str => structure_step (read_structure str) sx tm end) as [tm'| |]; try (cbn; now rewrite set_top_flat).
-Abort.
+  destruct (match sopt with None => StOk tm | Some str => structure_step (read_structure str) sx tm end) as [tm'| |];
+    try (inversion H; subst; now rewrite set_top_flat).
+  destruct (leaf_loop (check_fn st l) sopt leaves 0 (set_top (with_flat s1 false) (fst (m, tm), tm'))) as [vd4 s4] eqn:El.
+  assert (B4 : flat_off s4) by (eapply leaf_loop_flat; [exact Fcheck | exact El | unfold flat_off; now rewrite set_top_flat]).
+  destruct vd4; inversion H; subst; cbn; try rewrite set_top_flat; exact B4.
+Qed.
+
+Lemma body_path l sopt : Inv path_clear (flat_fn st l) -> Inv path_clear (check_fn st l) -> Inv path_clear (pytree_body st l sopt).
+Proof.
+  intros Fflat _ x s vd s' H Hp. unfold pytree_body in H. cbv zeta in H. unfold path_clear in *.
+  destruct (flatten_with (flat_fn st l) x (with_flat s true)) as [[fl s1] e] eqn:Ef.
+  assert (B1 : ps_path s1 = None) by (eapply (flatten_inv path_clear _ Fflat); [exact Ef | exact Hp]).
+  destruct fl as [[leaves sx]|]; [|inversion H; subst; rewrite set_top_path; exact B1].
+  destruct (top_frame (with_flat s1 false)) as [m tm].
+  destruct (match sopt with None => StOk tm | Some str => structure_step (read_structure str) sx tm end) as [tm'| |];
+    try (inversion H; subst; rewrite set_top_path; exact B1).
+  destruct (leaf_loop (check_fn st l) sopt leaves 0 (set_top (with_flat s1 false) (fst (m, tm), tm'))) as [vd4 s4].
+  destruct vd4; inversion H; subst; cbn; try rewrite set_top_path; reflexivity.
+Qed.
+
+(* whatever happens during a check -- rejection, AnnotationError, an exception of any class raised by a leaf
+   check or during flattening -- afterwards the flatten mode is off and no leaf position is set *)
+Theorem check_leaves_flatten_mode_off l x s vd s' :
+  leafmatch st l x s = (vd, s') -> ps_flat s = false -> ps_flat s' = false.
+Proof. apply (leafmatch_inv flat_off); [intros; unfold flat_off in *; now rewrite set_top_flat | exact body_flat]. Qed.
+
+Theorem check_leaves_no_leaf_position l x s vd s' :
+  leafmatch st l x s = (vd, s') -> ps_path s = None -> ps_path s' = None.
+Proof. apply (leafmatch_inv path_clear); [intros; unfold path_clear in *; now rewrite set_top_path | exact body_path]. Qed.
 
 End F.
